@@ -552,6 +552,32 @@ Section Proofs.
     apply abort_keeps_unlocked. apply holds_release_commit; auto.
   Qed.
 
+  (* fn ends its goroutine with runtime.Goexit after ANY body: only the deferred function of Updates runs
+     (recover() = nil), which aborts: nothing of the transaction is published and the writer lock is free. *)
+  Lemma quiet_no_begin_w h x : quiet h x = true -> no_begin_w x = true.
+  Proof. destruct x as [[|]| | | | | | | |]; simpl; auto. Qed.
+
+  Theorem goexit_invisible_thm :
+    (forall b w, wf w -> locked w = false ->
+        Forall (fun x => quiet (length (txns w)) x = true) b ->
+        pub (fst (managed true b Goexit w)) = pub w /\ locked (fst (managed true b Goexit w)) = false) /\
+    (forall wr b w, wf w -> locked w = false -> Forall (fun x => no_begin_w x = true) b ->
+        locked (fst (managed wr b Goexit w)) = false) /\
+    (forall wr b w h, snd (begin wr w) = OHandle h ->
+        snd (run_body b (fst (begin wr w))) = false ->
+        last (snd (managed wr b Goexit w)) OUnit = OFinGoexit).
+  Proof.
+    split; [|split].
+    - intros b w W U F. split.
+      + apply managed_failed_invisible; auto. left; discriminate.
+      + apply managed_releases; [exact W|exact U|].
+        eapply Forall_impl; [|exact F]. intros x Q. simpl in Q. exact (quiet_no_begin_w _ _ Q).
+    - intros wr b w W U F. apply managed_releases; assumption.
+    - intros wr b w h B P. unfold TxnSeq.managed.
+      destruct (begin wr w) as [w1 o1]. simpl in *. subst o1.
+      destruct (run_body b w1) as [[w2 os] p]. simpl in *. subst p. simpl. apply last_last.
+  Qed.
+
   (* ================= read_your_writes / commit_all_at_once ================= *)
 
   Definition not_ending (h : nat) (x : bstep) : bool :=
